@@ -156,72 +156,107 @@ func helperComparisons(call *ssa.Call, g *ssa.Function, depth int) []Cmp {
 		return nil
 	}
 	ri := len(rets[0].Results) - 1
-	// positive / negative returns of the helper
-	// posRets: returns whose deciding result may be positive (nil / true);
-	// negRets: returns whose deciding result may be negative. A return that
-	// cannot be classified counts as both.
-	var posRets, negRets []*ssa.Return
-	direct := map[*ssa.Return]ssa.Value{} // return whose bool result is a value (not a constant)
+	// The ways the helper produces its deciding result: (block the result is
+	// decided in, the value). A bool result built with && / || is a phi; each
+	// incoming edge is one case.
+	type resCase struct {
+		b        *ssa.BasicBlock
+		v        ssa.Value // nil for an error result
+		pos, neg bool      // the result may be positive / negative in this case
+	}
+	var cases []resCase
 	for _, rt := range rets {
 		if kind == "error" {
+			c := resCase{b: rt.Block(), pos: true, neg: true}
 			switch ClassifyReturn(rt) {
 			case RetSuccess:
-				posRets = append(posRets, rt)
+				c.neg = false
 			case RetFailure:
-				negRets = append(negRets, rt)
-			default:
-				posRets = append(posRets, rt)
-				negRets = append(negRets, rt)
+				c.pos = false
 			}
+			cases = append(cases, c)
 			continue
 		}
 		rv := ResolveResult(rt, ri)
-		if k, ok := rv.(*ssa.Const); ok && k.Value != nil && k.Value.Kind() == constant.Bool {
-			if constant.BoolVal(k.Value) {
-				posRets = append(posRets, rt)
-			} else {
-				negRets = append(negRets, rt)
+		var expand func(v ssa.Value, b *ssa.BasicBlock, depth int)
+		expand = func(v ssa.Value, b *ssa.BasicBlock, depth int) {
+			if k, ok := v.(*ssa.Const); ok && k.Value != nil && k.Value.Kind() == constant.Bool {
+				t := constant.BoolVal(k.Value)
+				cases = append(cases, resCase{b: b, v: v, pos: t, neg: !t})
+				return
 			}
-			continue
+			if ph, ok := v.(*ssa.Phi); ok && depth < 3 {
+				for i, e := range ph.Edges {
+					expand(e, ph.Block().Preds[i], depth+1)
+				}
+				return
+			}
+			cases = append(cases, resCase{b: b, v: v, pos: true, neg: true})
 		}
-		direct[rt] = rv
-		posRets = append(posRets, rt)
-		negRets = append(negRets, rt)
+		expand(rv, rt.Block(), 0)
+	}
+	reachWithout := func(cutEdges []Edge) map[*ssa.BasicBlock]bool {
+		cut := map[Edge]bool{}
+		for _, e := range cutEdges {
+			cut[e] = true
+		}
+		w := &Walk{Cut: func(b *ssa.BasicBlock, si int) bool { return cut[Edge{b, si}] }}
+		w.FromEntry(g)
+		out := map[*ssa.BasicBlock]bool{}
+		for _, b := range g.Blocks {
+			if w.Reached(b) {
+				out[b] = true
+			}
+		}
+		return out
 	}
 	var out []Cmp
 	for _, k := range Comparisons(g, depth-1) {
 		c := Cmp{Op: k.Op, X: bind(k.X), Y: bind(k.Y), Instr: k.Instr, In: k.In, Via: append([]*ssa.Function{g}, k.Via...)}
-		// the helper returns the comparison itself (possibly negated, possibly the only return)
-		if len(direct) > 0 && len(rets) == len(direct) && kind == "bool" {
-			same, negd := true, false
-			for _, rv := range direct {
-				s, n := sameBool(rv, k.Instr)
-				if !s {
-					same = false
-				}
-				negd = n
-			}
-			if same && k.In == g {
-				if !negd {
-					c.True, c.False = pos, neg
-				} else {
-					c.True, c.False = neg, pos
-				}
-				out = append(out, c)
-			}
-			continue
+		var noTrue, noFalse map[*ssa.BasicBlock]bool // blocks reachable although k's true (false) edges are cut
+		if len(k.True) > 0 {
+			noTrue = reachWithout(k.True)
 		}
-		// positive result only when the comparison is true (cut its true edges: no positive return reachable)
-		if len(k.True) > 0 && len(posRets) > 0 && noneReachable(g, k.True, posRets) {
+		if len(k.False) > 0 {
+			noFalse = reachWithout(k.False)
+		}
+		// implies(wantPos, wantTrue): whenever the result is positive (negative), k is true (false)
+		implies := func(wantPos, wantTrue bool) bool {
+			any := false
+			for _, cs := range cases {
+				if wantPos && !cs.pos || !wantPos && !cs.neg {
+					continue
+				}
+				any = true
+				if cs.v != nil && k.In == g {
+					if same, negd := sameBool(cs.v, k.Instr); same {
+						// result == k (or !k): positive result means k (¬k)
+						if (wantPos != negd) == wantTrue {
+							continue
+						}
+						return false
+					}
+				}
+				blocked := noFalse
+				if wantTrue {
+					blocked = noTrue
+				}
+				if blocked == nil || blocked[cs.b] {
+					return false
+				}
+			}
+			return any
+		}
+		if implies(true, true) {
 			c.True = append(c.True, pos...)
 		}
-		if len(k.False) > 0 && len(posRets) > 0 && noneReachable(g, k.False, posRets) {
+		if implies(true, false) {
 			c.False = append(c.False, pos...)
 		}
-		if len(k.True) > 0 && len(negRets) > 0 && noneReachable(g, k.True, negRets) {
+		if implies(false, true) {
 			c.True = append(c.True, neg...)
 		}
-		if len(k.False) > 0 && len(negRets) > 0 && noneReachable(g, k.False, negRets) {
+		if implies(false, false) {
 			c.False = append(c.False, neg...)
 		}
 		if len(c.True) > 0 || len(c.False) > 0 {
@@ -242,20 +277,273 @@ func sameBool(v ssa.Value, cmp *ssa.BinOp) (same, negated bool) {
 	return false, false
 }
 
-func noneReachable(g *ssa.Function, cutEdges []Edge, rets []*ssa.Return) bool {
+
+// ---------------------------------------------------------------------------
+// Natural loops
+
+// Loop is a natural loop: the header and every block that can reach a back
+// edge to the header without passing through the header.
+type Loop struct {
+	Header *ssa.BasicBlock
+	Blocks map[*ssa.BasicBlock]bool
+}
+
+// NaturalLoops lists the natural loops of f (one per header; back edges to
+// the same header are merged).
+func NaturalLoops(f *ssa.Function) []Loop {
+	byHeader := map[*ssa.BasicBlock]*Loop{}
+	var order []*ssa.BasicBlock
+	for _, t := range f.Blocks {
+		for _, h := range t.Succs {
+			if !h.Dominates(t) {
+				continue
+			}
+			lp := byHeader[h]
+			if lp == nil {
+				lp = &Loop{Header: h, Blocks: map[*ssa.BasicBlock]bool{h: true}}
+				byHeader[h] = lp
+				order = append(order, h)
+			}
+			stack := []*ssa.BasicBlock{t}
+			for len(stack) > 0 {
+				x := stack[len(stack)-1]
+				stack = stack[:len(stack)-1]
+				if lp.Blocks[x] {
+					continue
+				}
+				lp.Blocks[x] = true
+				stack = append(stack, x.Preds...)
+			}
+		}
+	}
+	var out []Loop
+	for _, h := range order {
+		out = append(out, *byHeader[h])
+	}
+	return out
+}
+
+// InnermostLoop returns the smallest natural loop of b's function containing b.
+func InnermostLoop(b *ssa.BasicBlock) (Loop, bool) {
+	var best Loop
+	found := false
+	for _, lp := range NaturalLoops(b.Parent()) {
+		if lp.Blocks[b] && (!found || len(lp.Blocks) < len(best.Blocks)) {
+			best, found = lp, true
+		}
+	}
+	return best, found
+}
+
+// ---------------------------------------------------------------------------
+// Guards through helpers, for disjunctive conditions
+
+// activeBindings maps a helper's parameters to the caller's arguments while a
+// rule's predicate looks at the helper's comparisons (see GuardEdges): AccessOf
+// and Bound continue through a bound parameter into the caller's frame, so
+// "row.Session == entry.Session" is recognised inside
+// `func prepare(entry *T, stored any) bool` exactly as in the caller.
+var activeBindings = map[*ssa.Parameter]ssa.Value{}
+
+// Bound resolves a helper parameter to the caller's argument (when a binding
+// is active), repeatedly.
+func Bound(v ssa.Value) ssa.Value {
+	for i := 0; i < 8; i++ {
+		pa, ok := v.(*ssa.Parameter)
+		if !ok {
+			return v
+		}
+		b, ok := activeBindings[pa]
+		if !ok {
+			return v
+		}
+		v = b
+	}
+	return v
+}
+
+// CmpView is a comparison handed to a GuardEdges predicate.
+type CmpView struct {
+	Op    token.Token
+	X, Y  ssa.Value // Bound() already applied
+	Instr *ssa.BinOp
+}
+
+// GuardEdges returns the edges of f on which at least one accepted condition
+// holds. accept says, for a comparison, whether its true edge and/or its false
+// edge is an accepted condition. Calls of helper predicates (bool) and
+// checkers (error) of the repository are looked into, up to depth: if, with
+// the helper's own accepted edges removed, no positive (negative) result of
+// the helper is reachable, then the caller's edges on which the result is
+// positive (negative) are accepted. This is the inter-procedural form of the
+// edge cut (DESIGN 2.8 (2)) and handles disjunctions (`absent || unheld ||
+// same holder`) that no single comparison implies.
+func GuardEdges(f *ssa.Function, depth int, accept func(CmpView) (onTrue, onFalse bool)) []Edge {
+	var out []Edge
+	if f == nil {
+		return nil
+	}
+	for _, b := range f.Blocks {
+		for _, in := range b.Instrs {
+			switch in := in.(type) {
+			case *ssa.BinOp:
+				if !isCompare(in.Op) {
+					continue
+				}
+				t, fl := accept(CmpView{Op: in.Op, X: Bound(in.X), Y: Bound(in.Y), Instr: in})
+				if !t && !fl {
+					continue
+				}
+				te, fe := condEdges(in)
+				if t {
+					out = append(out, te...)
+				}
+				if fl {
+					out = append(out, fe...)
+				}
+			case *ssa.Call:
+				if depth <= 0 {
+					continue
+				}
+				g := in.Call.StaticCallee()
+				if g == nil || len(g.Blocks) == 0 || g == f || !IsConsulFunc(g) {
+					continue
+				}
+				pos, neg, kind := resultEdges(in)
+				if kind == "" || (len(pos) == 0 && len(neg) == 0) {
+					continue
+				}
+				// bind g's parameters
+				var bound []*ssa.Parameter
+				for i, q := range g.Params {
+					if i < len(in.Call.Args) {
+						if _, dup := activeBindings[q]; !dup {
+							activeBindings[q] = Bound(in.Call.Args[i])
+							bound = append(bound, q)
+						}
+					}
+				}
+				inner := GuardEdges(g, depth-1, accept)
+				posOK, negOK := helperResultBelow(g, kind, inner, accept)
+				for _, q := range bound {
+					delete(activeBindings, q)
+				}
+				if posOK {
+					out = append(out, pos...)
+				}
+				if negOK {
+					out = append(out, neg...)
+				}
+			}
+		}
+	}
+	return out
+}
+
+// helperResultBelow: with the accepted edges of g removed, is every way of
+// producing a positive (negative) result unreachable?
+func helperResultBelow(g *ssa.Function, kind string, accepted []Edge, accept func(CmpView) (bool, bool)) (posOK, negOK bool) {
+	rets := Returns(g)
+	if len(rets) == 0 {
+		return false, false
+	}
+	ri := len(rets[0].Results) - 1
 	cut := map[Edge]bool{}
-	for _, e := range cutEdges {
+	for _, e := range accepted {
 		cut[e] = true
 	}
-	target := map[ssa.Instruction]bool{}
-	for _, r := range rets {
-		target[r] = true
-	}
-	found := false
-	w := &Walk{
-		Cut:   func(b *ssa.BasicBlock, si int) bool { return cut[Edge{b, si}] },
-		Visit: func(in ssa.Instruction) { found = found || target[in] },
-	}
+	w := &Walk{Cut: func(b *ssa.BasicBlock, si int) bool { return cut[Edge{b, si}] }}
 	w.FromEntry(g)
-	return !found
+	reach := func(b *ssa.BasicBlock) bool { return b == g.Blocks[0] || w.Reached(b) }
+	posOK, negOK = true, true
+	anyPos, anyNeg := false, false
+	note := func(b *ssa.BasicBlock, v ssa.Value, mayPos, mayNeg bool) {
+		// a result that is itself a comparison: positive means the comparison holds
+		if v != nil {
+			var k *ssa.BinOp
+			negd := false
+			if bo, ok := v.(*ssa.BinOp); ok && isCompare(bo.Op) {
+				k = bo
+			} else if u, ok := v.(*ssa.UnOp); ok && u.Op == token.NOT {
+				if bo, ok := u.X.(*ssa.BinOp); ok && isCompare(bo.Op) {
+					k, negd = bo, true
+				}
+			}
+			if k != nil {
+				t, fl := accept(CmpView{Op: k.Op, X: Bound(k.X), Y: Bound(k.Y), Instr: k})
+				if negd {
+					t, fl = fl, t
+				}
+				// positive result ⇔ k true: accepted iff onTrue; negative ⇔ k false: accepted iff onFalse
+				anyPos, anyNeg = true, true
+				if !t && reach(b) {
+					posOK = false
+				}
+				if !fl && reach(b) {
+					negOK = false
+				}
+				return
+			}
+		}
+		if mayPos {
+			anyPos = true
+			if reach(b) {
+				posOK = false
+			}
+		}
+		if mayNeg {
+			anyNeg = true
+			if reach(b) {
+				negOK = false
+			}
+		}
+	}
+	for _, rt := range rets {
+		if kind == "error" {
+			switch ClassifyReturn(rt) {
+			case RetSuccess:
+				note(rt.Block(), nil, true, false)
+			case RetFailure:
+				note(rt.Block(), nil, false, true)
+			default:
+				note(rt.Block(), nil, true, true)
+			}
+			continue
+		}
+		var expand func(v ssa.Value, b *ssa.BasicBlock, d int)
+		expand = func(v ssa.Value, b *ssa.BasicBlock, d int) {
+			if k, ok := v.(*ssa.Const); ok && k.Value != nil && k.Value.Kind() == constant.Bool {
+				t := constant.BoolVal(k.Value)
+				note(b, nil, t, !t)
+				return
+			}
+			if ph, ok := v.(*ssa.Phi); ok && d < 3 {
+				for i, e := range ph.Edges {
+					expand(e, ph.Block().Preds[i], d+1)
+				}
+				return
+			}
+			note(b, v, true, true)
+		}
+		expand(ResolveResult(rt, ri), rt.Block(), 0)
+	}
+	return posOK && anyPos && len(accepted) > 0 || posOK && anyPos && onlyDirect(g, ri, kind), negOK && anyNeg && (len(accepted) > 0 || onlyDirect(g, ri, kind))
+}
+
+// onlyDirect: every return of the bool helper is a comparison value (no
+// branching needed for the implication).
+func onlyDirect(g *ssa.Function, ri int, kind string) bool {
+	if kind != "bool" {
+		return false
+	}
+	for _, rt := range Returns(g) {
+		v := ResolveResult(rt, ri)
+		if u, ok := v.(*ssa.UnOp); ok && u.Op == token.NOT {
+			v = u.X
+		}
+		if bo, ok := v.(*ssa.BinOp); !ok || !isCompare(bo.Op) {
+			return false
+		}
+	}
+	return true
 }
